@@ -84,10 +84,26 @@ def run_program(sc: Dict[str, Any], location: str, watchdog_s: float = 60.0) -> 
                     verdict = "not-dead"
                     break
                 REC.record("drive.dead", ref, ok=True, reason=harness._safe(eng.exitReason))
+            REC.record("drive.restart.enter", ref)
+            killer = None
+            if st.get("concurrent_kill") is not None:
+                # a second thread kills the engine WHILE restart() is executing (e.g. ComponentState.finish() because
+                # another component failed): delay in real milliseconds, the yield injection widens restart() itself
+                def _kill(delay=float(st["concurrent_kill"])):
+                    time.sleep(delay)
+                    harness.CTX.kill_tag.tag = "external"
+                    try:
+                        eng.kill()
+                    finally:
+                        harness.CTX.kill_tag.tag = "internal"
+                killer = threading.Thread(target=_kill, daemon=True)
+                killer.start()
             try:
                 code = eng.restart()
             except AssertionError as e:
                 code = "AssertionError"
+            if killer is not None:
+                killer.join(2.0)
             REC.record("drive.restart", ref, code=code)
             if code != "RestartInitiated":
                 break
@@ -126,24 +142,50 @@ def judge(sc: Dict[str, Any], policy: Dict[str, Any], res: Dict[str, Any]):
     restarts = 0
     resub = 0
     launched_this_life = False
+    pre = None                       # (killed, launched_this_life, last_end) as they were when restart() was entered
+    kill_seq: Optional[int] = None   # effective external kill of the current life
+    after_kill_execs = set()
     for e in evs:
         k = e["kind"]
+        if k == "drive.restart.enter":
+            pre = (killed, launched_this_life, last_end)
+            killed, launched_this_life, kill_seq = False, False, None
+            continue
         if k == "launch":
             cnt["eng_launches"] += 1
+            if kill_seq is not None and e["seq"] > kill_seq and not e.get("launch_error"):
+                after_kill_execs.add(e["exec"])
+                cnt["eng_launches_after_an_effective_kill"] = cnt.get("eng_launches_after_an_effective_kill", 0) + 1
             launched_this_life = True
             le = e.get("launch_error")
             last_end = "SubmissionFailed" if le in ("OSError", "JobLaunchError") else ("UnknownIssue" if le else None)
         elif k == "exit":
             last_end = e["reason"]
+            if e["exec"] in after_kill_execs and e["reason"] not in ("Killed", "Cancelled"):
+                # a task that is launched although its engine had already been killed may at most be a task caught in
+                # the middle of its launch, which is then killed at once; one that runs to its own exit was started
+                # after the kill had been lost
+                viol.append({"clause": "task-started-after-kill-ran-to-its-own-exit", "seq": e["seq"], "exec": e["exec"],
+                             "reason": e["reason"], "kill_seq": kill_seq})
         elif k == "engine.kill" and e.get("alive") and e.get("tag") == "external":
             killed = True
+            kill_seq = e["seq"] if kill_seq is None else kill_seq
             cnt["eng_kills_effective"] += 1
             if not launched_this_life:
                 cnt["eng_kills_in_prelaunch_window"] += 1
         elif k == "drive.restart":
             cnt["eng_restart_calls"] += 1
             code = e["code"]
-            end = last_end
+            if pre is not None:
+                # judge the restart on what ended the PREVIOUS life; kills that arrived while restart() was executing
+                # belong to the new life
+                new_life = (killed, launched_this_life, kill_seq)
+                killed, launched_this_life, last_end_prev = pre[0], pre[1], pre[2]
+                if new_life[0]:
+                    cnt["eng_kills_during_restart_call"] = cnt.get("eng_kills_during_restart_call", 0) + 1
+            else:
+                new_life = None
+            end = last_end if pre is None else pre[2]
             if killed and not launched_this_life:
                 end = "Killed"      # the kill landed before any task of this life was launched: unambiguous
             elif killed and last_end != "Killed":
@@ -165,8 +207,14 @@ def judge(sc: Dict[str, Any], policy: Dict[str, Any], res: Dict[str, Any]):
                 killed = False
                 launched_this_life = False
                 last_end = None
-            elif end == "Killed":
-                cnt["eng_restart_after_kill_refused"] += 1
+                if new_life is not None:
+                    killed, launched_this_life, kill_seq = new_life
+            else:
+                if end == "Killed":
+                    cnt["eng_restart_after_kill_refused"] += 1
+                if new_life is not None and new_life[0]:
+                    killed = True       # refused: no new life began, the kill belongs to the old one
+            pre = None
     return viol, cnt
 
 
